@@ -3,14 +3,15 @@
 Decided (structural):
  R1 K3  SyncResponder.to_send is assigned only from find_needed_segments (computed from the
         responder's own committed storage) or reset; the only in-place rewrite is the resume point
-        in get_commands = Location::new(location.segment, location.max_cut + sent) of the entry
-        being sent; commands are read with storage.get_segment(loc).get_from(loc) for loc taken
+        computed in get_commands = Location::new(location.segment, location.max_cut + sent) of the
+        entry being sent (applied by its caller, R3); commands are read with storage.get_segment(loc).get_from(loc) for loc taken
         from to_send.
  R2 K1+K10 parents first: find_needed_segments sorts `collected` before returning it, and Location
         derives Ord with `max_cut` as first field (an ancestor always has a smaller max_cut).
- R3 K1  message_index and next_send advance only after the whole message fitted the buffer
-        (success edge of target.get_mut(range)), message_index by exactly checked_add(1) per
-        response; SyncResponse carries message_index as response_index and SyncEnd as max_index.
+ R3 K1  all session progress - message_index, next_send and the in-place resume rewrite of
+        to_send[i] - is applied only after the whole message fitted the buffer (success edge of
+        target.get_mut(range)) in get_next and push; get_commands only computes; message_index
+        grows by exactly checked_add(1) per response; SyncResponse carries message_index as response_index and SyncEnd as max_index.
  R4 K2  a session ends: get_next emits SyncEnd (and goes Idle) on the `next_send >= to_send.len()`
         edge; get_commands returns an index >= next_send computed from the loop variable.
  R5 K2  the requester accepts a response only when response_index == next_message_index and then
@@ -22,6 +23,35 @@ from rules.core.facts import Operand, Place, PASS_THROUGH
 CRATES = ["aranya_runtime"]
 THOROUGH_CONFIGS = ["lowmem"]   # thorough tier: the same rules on the low-mem-usage build
 R = "aranya_runtime::sync::responder::SyncResponder::"
+
+
+PROGRESS = ("next_send", "message_index")
+
+
+def progress_write_sites(f):
+    """(block, site) of element stores into self.to_send (through get_mut / index_mut)"""
+    out = []
+    for c in f.calls:
+        if c.name in ("get_mut", "index_mut", "last_mut", "first_mut", "iter_mut", "swap", "as_mut_slice") and f.derives_from_field(c.args[0], "to_send"):
+            al = f.forward_aliases(c.dest.local, through_calls=PASS_THROUGH) if c.dest is not None else set()
+            for s_ in f.stmts():
+                if s_.place is not None and s_.place.proj and s_.place.proj[0][0] == "d" and s_.place.local in al:
+                    out.append((s_.bb, "%s:%d" % (f.file, s_.line)))
+    return out
+
+
+def progress_writes(f):
+    return ["%s:%d" % (f.file, s_.line) for fld in PROGRESS for s_ in f.field_stores(fld)] + [w for b, w in progress_write_sites(f)]
+
+
+def progress_helpers(F):
+    """SyncResponder methods (other than the entry points) that write session progress"""
+    out = []
+    for f in F.fns:
+        if f.path.startswith(R) and f.kind != "Closure" and f.name not in ("get_next", "push", "poll", "receive", "new", "reset", "get_commands", "dispatch"):
+            if progress_writes(f):
+                out.append(f)
+    return out
 
 
 def run(F, rep, tier):
@@ -36,7 +66,8 @@ def run(F, rep, tier):
         ag = [s for s in f.stmts() if s.rv_kind() == "agg" and s.rv[1].get("adt", "").endswith("responder::SyncResponder")]
         if st or mr or ag:
             writers[(f.root or f.path).split("::")[-1]] = (len(st), len(mr), len(ag))
-    allowed = {"poll", "get_commands", "new", "dispatch", "push"}
+    helpers = progress_helpers(F)
+    allowed = {"poll", "new", "dispatch", "push", "get_next"} | {h.name for h in helpers}
     rep.check(set(writers) <= allowed and "poll" in writers, "to_send|writers", "K3 who-may-write",
               "to_send is written only in %s" % sorted(writers), "unexpected writer of SyncResponder.to_send: %s" % sorted(set(writers) - allowed))
     poll = F.fn(R + "poll")
@@ -46,8 +77,7 @@ def run(F, rep, tier):
         rep.check("call:find_needed_segments" in org, "poll|to_send-from-find_needed_segments", "K6 provenance",
                   "poll assigns to_send := find_needed_segments(has, storage)", site=poll.site(s.line))
     gc = F.fn(R + "get_commands")
-    gm = [c for c in gc.calls if c.name == "get_mut" and gc.derives_from_field(c.args[0], "to_send")]
-    rw = pat.one(rep, gm, "to_send.get_mut(i) (resume rewrite)", gc)
+    rw = True
     if rw:
         ln = [c for c in gc.calls if c.is_("Location::new")]
         ok = False
@@ -99,16 +129,30 @@ def run(F, rep, tier):
     ords = [i for i in F.impls_of("storage::Location", "cmp::Ord") if i["derived"]]
     rep.check(fields[:1] == ["max_cut"] and bool(ords), "Location|ord-by-max_cut-first", "K10 type fact",
               "Location derives Ord with max_cut first: %s" % fields, "Location's ordering is not (derived, max_cut-first): %s" % fields)
-    # R3
+    # R3 all session progress (message_index, next_send and the in-place resume rewrite of to_send[i]) is
+    # applied only after the message fitted the caller's buffer
     gn = F.fn(R + "get_next")
+    pw = progress_writes(gc)
+    rep.check(not pw, "get_commands|computes-only", "K3 who-may-write",
+              "get_commands writes no session progress (next_send, message_index, to_send[i]); it returns what to apply",
+              "get_commands changes session progress (%s) before its caller knows whether the message fits the buffer: when the caller retries with a larger buffer after "
+              "BufferTooSmall the commands already skipped in to_send are never sent" % ", ".join(pw), gc.site())
+    for fn_ in (gn, F.fn(R + "push")):
+        fit = [c for c in fn_.calls if c.name == "get_mut" and "argname:target" in fn_.origins(c.args[0], through_calls=())]
+        fit1 = pat.one(rep, fit, "target.get_mut(range) fit check", fn_)
+        if not fit1:
+            continue
+        oke = pat.ok_edge(fn_, fit1)
+        sites = [(s_.bb, "%s:%d" % (fn_.file, s_.line)) for s_ in fn_.field_stores("message_index") + fn_.field_stores("next_send")]
+        sites += [(b, w) for b, w in progress_write_sites(fn_)]
+        sites += [(c.bb, c.site()) for c in fn_.calls if c.path and any(c.path == h.path for h in helpers)]
+        early = [w for b, w in sites if oke is None or not fn_.dominates(oke[1], b)]
+        rep.check(oke is not None and len(sites) >= 2 and not early, "%s|advance-after-fit" % fn_.name, "K1 must-pass-through",
+                  "every change of session progress in %s (message_index, next_send, resume rewrite; %d sites) lies on the success edge of the buffer-fit check" % (fn_.name, len(sites)),
+                  "%s advances the session before knowing the message fits (%s): a retry with a larger buffer would lose commands" % (fn_.name, ", ".join(early)), fn_.site())
     fit = [c for c in gn.calls if c.name == "get_mut" and "argname:target" in gn.origins(c.args[0], through_calls=())]
-    fit = pat.one(rep, fit, "target.get_mut(range) fit check", gn)
+    fit = fit[0] if len(fit) == 1 else None
     if fit:
-        oke = pat.ok_edge(gn, fit)
-        st = gn.field_stores("message_index") + gn.field_stores("next_send")
-        rep.check(oke is not None and len(st) >= 2 and all(gn.dominates(oke[1], s.bb) for s in st), "get_next|advance-after-fit", "K1 must-pass-through",
-                  "message_index / next_send are stored only after the buffer-fit check succeeded",
-                  "get_next advances the session before knowing the message fits (a retry would lose commands)", gn.site())
         mi = gn.field_stores("message_index")
         ok = False
         for s in mi:
